@@ -21,6 +21,7 @@ fn with_prop(id: &str, f: &mut dyn FnMut(&dyn Runner)) -> bool {
         "C03" => f(&HistProp(Which::C03)),
         "C04" => f(&HistProp(Which::C04)),
         "C09" => f(&HistProp(Which::C09)),
+        "C10" => f(&props::c10::C10),
         "C12" => f(&props::c12::C12),
         "C13" => f(&props::c13::C13),
         _ => return false,
